@@ -53,6 +53,7 @@ TH_C01S = 'Definition C01s_@ := C01_stream_eq_spec d_@ g_@ V_@ R_@ D_@ dfa_ok_@ 
 TH_C02 = 'Definition C02_@ := C02_error_span d_@ g_@ V_@ R_@ D_@ dfa_ok_@ sim_ok_@ exact_ok_@.'
 TH_C03 = 'Definition C03_@ := C03_tiling d_@ g_@ V_@ R_@ D_@ dfa_ok_@ sim_ok_@ exact_ok_@.'
 TH_C07C = 'Definition C07c_@ := C07_chunked_is_oneshot d_@ g_@ V_@ R_@ D_@ dfa_ok_@ sim_ok_@ exact_ok_@.'
+TH_C07E = 'Definition C07e_@ := fun U => C07_emitted_chunked_is_oneshot U g_@ p_@ prog_ok_@ wf_graph_@ d_@ V_@ R_@ D_@ dfa_ok_@ sim_ok_@ exact_ok_@.'
 TH_C01B = 'Definition C01b_@ := C01_maximal_munch_built d_@ g_@ Vs_@ build_side_@ gsimb_@.'
 TH_C06P = 'Definition C06p_@ := fun U isprefix start rest => C06_emitted_is_ref U g_@ p_@ isprefix start rest prog_ok_@ wf_graph_@.'
 
